@@ -1,8 +1,56 @@
 package drv
 
-// tryReplay runs the counterexample of a replay file against the real code and reports whether the
-// violation was confirmed there. It updates the "replay" entry of the file.
-func tryReplay(opt Options, path string) bool {
-	st, _ := Replay(opt, path)
+import (
+	"encoding/json"
+	"os"
+	"strings"
+	"time"
+
+	"govc/smt"
+	"govc/sx"
+)
+
+// tryReplay runs the counterexample of a replay file against the real code and reports whether the violation was
+// confirmed there. If the real VM faults on the first candidate (the model chose Null where the code needs bytes, a
+// frequent gap between model and VM), the solver is asked once more for a counterexample whose byte-string
+// parameters are not Null, and that one is replayed.
+func tryReplay(opt Options, path string, q *smt.Query, params []string) bool {
+	st, note := Replay(opt, path)
+	if st == "confirmed" {
+		return true
+	}
+	if q == nil || !strings.Contains(note, "faults") {
+		return false
+	}
+	q2 := *q
+	q2.Hyps = append([]*sx.T{}, q.Hyps...)
+	n := 0
+	for _, c := range q.Consts {
+		if c.Sort == "NB" && strings.HasPrefix(c.Name, "p_") {
+			q2.Hyps = append(q2.Hyps, sx.Not(sx.App("isnull", sx.Atom(c.Name))))
+			n++
+		}
+	}
+	if n == 0 {
+		return false
+	}
+	res := smt.Check(&q2, smt.Options{Timeout: 20 * time.Second, QuantTimeout: 5 * time.Second})
+	if res.Status != "sat" || res.Model == nil {
+		return false
+	}
+	b, err := os.ReadFile(path)
+	if err != nil {
+		return false
+	}
+	var rc map[string]any
+	if json.Unmarshal(b, &rc) != nil {
+		return false
+	}
+	rc["first_candidate"] = map[string]any{"model": rc["model"], "replay": rc["replay"]}
+	rc["model"] = res.Model
+	rc["goal_skolems"] = res.GoalSkolems
+	out, _ := json.MarshalIndent(rc, "", " ")
+	os.WriteFile(path, append(out, '\n'), 0o644)
+	st, _ = Replay(opt, path)
 	return st == "confirmed"
 }
